@@ -3,6 +3,7 @@
 R03.1 emit-what-you-sign: the segments placed in the output are the values that form the signing input
 R03.2 kid-before-header: key selection (which may record a kid) precedes the encoding of the protected header
 R03.3 fixed-width R||S: ceiling division for every bit->octet conversion, same width on both sides, left-padding
+R03.6 optional JSON members (protected / header) are written when present
 R03.4 detaching touches only the payload        R03.5 the RFC 7797 attach/detach pattern is a full match of [A-Za-z0-9-_~]+
 """
 from __future__ import annotations
@@ -14,7 +15,7 @@ from ..program import AnalysisError, FunctionInfo, fn_nodes, norm
 from ..callgraph import CallSite
 from ..cfg import cfg_of
 from ..terms import Terms, show, match, alts, C, K, L
-from .common import find_local, resolve_all, JWS_PRODUCE, const_value, entries, impls, is_const, scope_of, sites_calling
+from .common import misguarded_member_stores, find_local, resolve_all, JWS_PRODUCE, const_value, entries, impls, is_const, scope_of, sites_calling
 from .c05 import _resolve_local
 from .c06 import _key_producers
 
@@ -323,7 +324,26 @@ def r03_5(ctx) -> None:
               construct="pattern applied to payload")
 
 
+def r03_6(ctx) -> None:
+    """writers / re-packers of the JWS JSON signature object emit protected / header when (not unless) they are present"""
+    eng = ctx.eng
+    P = eng.prog
+    n = 0
+    for mod in ("rfc7515.json", "rfc7797.json"):
+        for fn in P.mod(mod).functions:
+            stores = [x for x in fn_nodes(fn) if isinstance(x, ast.Assign) and len(x.targets) == 1 and isinstance(x.targets[0], ast.Subscript)
+                      and const_value(x.targets[0].slice) in ("protected", "header", "payload", "signature")]
+            if not stores:
+                continue
+            n += 1
+            bad = misguarded_member_stores(eng, fn)
+            ctx.check(not bad, "R03.6", fn, bad[0][0] if bad else fn.node, f"{fn.short} :: optional members", f"JWS JSON writer: {bad[0][1] if bad else ''}", "if member.header: rv['header'] = member.header",
+                      construct=f"optional member guards in {fn.short}")
+    ctx.count("R03.6", n, 3, "functions writing members of the JSON signature object")
+
+
 def run(ctx) -> None:
+    ctx.guard(r03_6)
     ctx.guard(r03_1)
     ctx.guard(r03_2)
     ctx.guard(r03_3)
